@@ -236,6 +236,7 @@ func cmdCheck(args []string) {
 	}
 	var slow []slowT
 	covers := 0
+	exitCovers := map[string][]*Obligation{}
 	for _, o := range all {
 		solverTime += o.TimeS
 		slow = append(slow, slowT{o.Name, o.TimeS})
@@ -243,7 +244,9 @@ func cmdCheck(args []string) {
 		if o.Expected == "sat" {
 			// vacuity guard: only a definite unsat is a failure
 			covers++
-			if o.Result == "unsat" {
+			if strings.Contains(o.Name, "cover:exit") {
+				exitCovers[o.Func] = append(exitCovers[o.Func], o)
+			} else if o.Result == "unsat" {
 				vacuous = append(vacuous, o)
 			}
 			continue
@@ -269,6 +272,18 @@ func cmdCheck(args []string) {
 			}
 		} else {
 			violations = append(violations, o)
+		}
+	}
+	// a function none of whose returns is reachable under its own assumptions is vacuously verified
+	for _, os := range exitCovers {
+		allUnsat := true
+		for _, o := range os {
+			if o.Result != "unsat" {
+				allUnsat = false
+			}
+		}
+		if allUnsat {
+			vacuous = append(vacuous, os[0])
 		}
 	}
 	sort.Slice(slow, func(i, j int) bool { return slow[i].S > slow[j].S })
